@@ -56,6 +56,7 @@ type Run struct {
 	Chooses    []int  // verifChoose results in order (for native replay)
 	nameCtr    map[string]int
 	absCtr     int
+	itoaCtr    int
 	panicSite  string
 	lastModPos token.Pos
 }
